@@ -189,6 +189,51 @@ def run(chk):
             except Undecided as e:
                 v, d = UNDECIDED, e.cause
             chk.add("C16.E", key, v, d, where=where_of(b))
+        # concrete terms over a sparse variable set (gaps between the variables, several variables after a gap): a
+        # printer that jumps between set bits computes the printed index from data, which the symbolic windows above
+        # cannot follow; constant terms fold completely
+        import itertools as _it
+        pool = (0, 2, 3, 4, 9, 31)
+        v, d, nrun = PROVED, "", 0
+        try:
+            for r_ in range(len(pool) + 1):
+                for V in _it.combinations(pool, r_):
+                    for X in (0, 1):
+                        f = [None, None]
+                        f[vi] = W(32, val=sum(1 << i for i in V))
+                        f[xi] = W(1, val=X)
+                        res = run_fmt(facts, b, Agg("adt", ECUBE, 0, f))
+                        nrun += 1
+                        if len(res) != 1 or res[0][0] != "text":
+                            if any(r[0] == "panic" and r[1] == "sat" for r in res):
+                                v, d = REFUTED, "printing the term over %s with xnor=%d panics" % (list(V), X)
+                            else:
+                                v, d = UNDECIDED, "constant term does not fold to one text"
+                            break
+                        txt = res[0][3]
+                        parts = txt.split(" ^ ")
+                        vars_ = [p_ for p_ in parts if p_ not in ("1", "0")]
+                        if any(not re.match(r"^x\d+$", p_) for p_ in vars_):
+                            v, d = UNDECIDED, "text %r not read" % txt
+                            break
+                        idx = [int(p_[1:]) for p_ in vars_]
+                        dv = set()
+                        for i in idx:
+                            dv ^= {i}
+                        dc = sum(1 for p_ in parts if p_ == "1") & 1
+                        if (txt == "0") != (not V and not X) or (txt != "0" and (dv != set(V) or dc != X or "0" in parts)):
+                            v, d = REFUTED, "term over %s with xnor=%d prints %r" % (list(V), X, txt)
+                            break
+                        if idx != sorted(idx):
+                            v, d = REFUTED, "variables are not printed in increasing order: %r" % txt
+                            break
+                    if v != PROVED:
+                        break
+                if v != PROVED:
+                    break
+        except Undecided as e:
+            v, d = UNDECIDED, e.cause
+        chk.add("C16.E", "Ecube display of %d constant terms over subsets of %s" % (2 ** (len(pool) + 1), list(pool)), v, d, where=where_of(b))
     # ------------------------------------------------------------------ joiners
     for adt, sep in ((SOP, " | "), (SOES, " | "), (ESOP, " ^ ")):
         b = disp.get(adt)
